@@ -427,3 +427,102 @@ Proof.
   eexists. vm_compute. reflexivity.
 Qed.
 Print Assumptions C10_empty_required_witness.
+
+(* ------------------------------------------------------------------------------------------------------------------
+   (10) THE PROCESS TIME ZONE AND THE CLOCK SOURCES.  Model/RequestWindow.v: Request.issue_instant_ok on the TEXT of
+   IssueInstant, through Model/TimeUtil.v (strptime / str_to_time, calendar.timegm, time.gmtime, datetime.timetuple,
+   the order on time tuples), with the clock of the process explicit: pclock = (the instant, what the wall clock of the
+   zone in force is ahead of UTC).  The code reads datetime.utcnow() for now and calendar.timegm for the text. *)
+From PV Require Import Model.TimeUtil Model.RequestWindow Proofs.RequestWindow_lemmas.
+
+(* (10a) the verdict on a text that denotes the tuple c is the window on instants [now-86400-slack, now+86400+slack),
+   now = the UTC instant, timegm c = the UTC reading of the text *)
+Theorem C10_window_text :
+  forall k slack s c, str_to_time s = Ok (Some c) ->
+    window_text k slack s = Ok (within (pc_now k) slack (timegm c)).
+Proof. exact window_text_spec. Qed.
+Print Assumptions C10_window_text.
+
+(* (10b) the verdict is a function of (now_utc, text, allowance) only: two processes whose clocks read the same instant
+   give the same verdict on every text whatever their zones *)
+Theorem C10_window_verdict_is_zone_free :
+  forall k k' slack s, pc_now k = pc_now k' -> window_text k slack s = window_text k' slack s.
+Proof. exact window_text_function_of_utc. Qed.
+Print Assumptions C10_window_verdict_is_zone_free.
+
+(* (10c) it IS the IssueInstant clause of the request model (Model/Request.v issue_instant_ok on d_issue_instant) when
+   the document's instant is the one its text denotes; so C10_handed_over_only_if_valid speaks about texts *)
+Theorem C10_window_text_is_the_request_window :
+  forall k (c : rcfg) s tm, c_now c = pc_now k -> str_to_time s = Ok (Some tm) ->
+    window_text k (c_slack c) s = Ok (issue_instant_ok c (timegm tm)).
+Proof. exact window_text_is_request_window. Qed.
+Print Assumptions C10_window_text_is_the_request_window.
+
+(* (10d) accepted by the test => the text parses and lies strictly within a day plus allowance of the UTC now - in
+   every zone; a request more than a day + allowance away is never accepted *)
+Theorem C10_window_never_beyond_a_day :
+  forall k slack s, window_text k slack s = Ok true ->
+    exists c, str_to_time s = Ok (Some c) /\ (pc_now k - 86400 - slack <= timegm c < pc_now k + 86400 + slack)%Z.
+Proof. exact window_text_sound. Qed.
+Print Assumptions C10_window_never_beyond_a_day.
+
+(* (10e) a message stamped by time_util.instant at t (years 1000..9999) gets the window on t *)
+Theorem C10_window_of_stamped_instant :
+  forall k slack t, (-30610224000 <= t <= 253402300799)%Z ->
+    window_text k slack (instant_of t) = Ok (within (pc_now k) slack t).
+Proof. exact window_text_of_instant. Qed.
+Print Assumptions C10_window_of_stamped_instant.
+
+(* (10f) REFUTED for a window that takes mktime(gmtime()) (time_util.utc_time_sans_frac: the UTC tuple read as LOCAL
+   time) as now: in New York a request dated a day and an hour ahead passes, in Tokyo one dated 23 h ahead is refused;
+   likewise for datetime.now() as now and for mktime instead of timegm on the text.  Under UTC the three variants ARE
+   the code (the partial statement) - which is why a run in a UTC process cannot tell them apart. *)
+Theorem C10_window_mktime_now_refuted :
+  (exists c, str_to_time s_ahead_1d_1h = Ok (Some c) /\ timegm c = (W_NOW + 86400 + 3600)%Z /\
+             window_text_mktime_now k_new_york 0 s_ahead_1d_1h = Ok true /\
+             window_text k_new_york 0 s_ahead_1d_1h = Ok false /\ window_text_mktime_now k_utc 0 s_ahead_1d_1h = Ok false) /\
+  (exists c, str_to_time s_ahead_23h = Ok (Some c) /\ timegm c = (W_NOW + 82800)%Z /\
+             window_text_mktime_now k_tokyo 0 s_ahead_23h = Ok false /\
+             window_text k_tokyo 0 s_ahead_23h = Ok true).
+Proof. exact window_mktime_now_refuted. Qed.
+Print Assumptions C10_window_mktime_now_refuted.
+
+Theorem C10_window_local_now_refuted :
+  window_text_local_now k_tokyo 60 s_ahead_1d_1h = Ok true /\ window_text k_tokyo 60 s_ahead_1d_1h = Ok false /\
+  window_text_local_now k_new_york 60 s_ahead_23h = Ok false /\ window_text k_new_york 60 s_ahead_23h = Ok true.
+Proof. exact window_local_now_refuted. Qed.
+Print Assumptions C10_window_local_now_refuted.
+
+Theorem C10_window_mktime_text_refuted :
+  window_text_mktime_text k_tokyo 0 s_ahead_1d_1h = Ok true /\ window_text k_tokyo 0 s_ahead_1d_1h = Ok false.
+Proof. exact window_mktime_text_refuted. Qed.
+Print Assumptions C10_window_mktime_text_refuted.
+
+Theorem C10_window_variants_partial :
+  forall k slack s, pc_ahead k = 0%Z ->
+    window_text_mktime_now k slack s = window_text k slack s /\ window_text_local_now k slack s = window_text k slack s /\
+    window_text_mktime_text k slack s = window_text k slack s.
+Proof. exact window_variants_partial. Qed.
+Print Assumptions C10_window_variants_partial.
+
+(* the shifted windows, in general *)
+Theorem C10_window_variants_shift :
+  forall k slack s c, str_to_time s = Ok (Some c) ->
+    window_text_mktime_now k slack s = Ok (within (pc_now k - pc_ahead k) slack (timegm c)) /\
+    window_text_local_now k slack s = Ok (within (pc_now k + pc_ahead k) slack (timegm c)) /\
+    window_text_mktime_text k slack s = Ok (within (pc_now k) slack (timegm c - pc_ahead k)).
+Proof.
+  intros k slack s c H. repeat split.
+  - exact (window_mktime_now_spec k slack s c H).
+  - exact (window_local_now_spec k slack s c H).
+  - exact (window_mktime_text_spec k slack s c H).
+Qed.
+Print Assumptions C10_window_variants_shift.
+
+(* non-vacuity: a text the code accepts in every zone, one it refuses in every zone *)
+Example C10_window_witness :
+  window_text k_tokyo 0 s_ahead_23h = Ok true /\ window_text k_new_york 0 s_ahead_23h = Ok true /\
+  window_text k_utc 0 s_ahead_23h = Ok true /\ window_text k_tokyo 3600 s_ahead_1d_1h = Ok false /\
+  window_text k_tokyo 3601 s_ahead_1d_1h = Ok true /\ window_text k_utc 0 [] = Err TypeError.
+Proof. repeat split; vm_compute; reflexivity. Qed.
+Print Assumptions C10_window_witness.
